@@ -27,8 +27,10 @@ MeshLocs == [k \in 1..Len(MeshCells) |-> Centroid(MeshCells[k])]
 MeshLayout == [kind |-> "mesh", dims |-> <<Len(MeshCells)>>, order |-> "C", rev |-> FALSE, inc |-> <<TRUE>>, loc |-> "cells"]
 NS(c) == IF c.su = "umixed" THEN Len(MeshCells) ELSE N(c.src)
 SLocs(c) == IF c.su = "umixed" THEN MeshLocs ELSE Locs(c.src, c.su)
+NT(c) == IF c.tu = "umixed" THEN Len(MeshCells) ELSE N(c.dst)
+TLocs(c) == IF c.tu = "umixed" THEN MeshLocs ELSE Locs(c.dst, c.tu)
 SMask(c, p) == c.sm /\ (IF c.su = "umixed" THEN p % 3 = 0 ELSE Tok(SLocs(c)[p]) % 3 = 0)
-TMask(c, p) == c.tm /\ Tok(Locs(c.dst, c.tu)[p]) % 4 = 1
+TMask(c, p) == c.tm /\ (IF c.tu = "umixed" THEN p % 4 = 1 ELSE Tok(TLocs(c)[p]) % 4 = 1)
 Dist2(a, b) == LET dx == a[1] - b[1]
                    dy == IF Len(a) > 1 THEN a[2] - b[2] ELSE 0
                    dz == IF Len(a) > 2 THEN a[3] - b[3] ELSE 0
@@ -50,7 +52,7 @@ Inside(c, q) == \A a \in LivePts(c), b \in LivePts(c) :
 (* admissible outcomes at target position p: set of values, and whether masked is admissible *)
 NearestVals(c, q) == {SrcField(c)[s] : s \in NearestSrc(c, q)}
 Admissible(c, p) ==
-  LET q == Locs(c.dst, c.tu)[p] IN
+  LET q == TLocs(c)[p] IN
   IF TMask(c, p) THEN [vals |-> {}, masked |-> TRUE]
   ELSE IF c.kind = "nearest" THEN [vals |-> NearestVals(c, q), masked |-> FALSE]
   ELSE IF Inside(c, q) THEN [vals |-> {Affine(q)}, masked |-> FALSE]
@@ -61,7 +63,7 @@ Admissible(c, p) ==
 (* a fixed target mask without filling: the adapter may refuse the setup when some unmasked    *)
 (* target is not strictly inside the hull (it could not be masked); it must never deliver it  *)
 MayRefuse(c) == c.kind = "linear" /\ c.tm /\ ~c.fill /\
-                \E p \in 1..N(c.dst) : ~TMask(c, p) /\ ~Inside(c, Locs(c.dst, c.tu)[p])
+                \E p \in 1..NT(c) : ~TMask(c, p) /\ ~Inside(c, TLocs(c)[p])
 
 Hows(L) == IF L.loc = "points" THEN {"struct", "unstr", "upoints"} ELSE {"struct", "unstr"}
 SrcLayouts == {L \in Layouts({"uniform", "rect"}, {<<3>>, <<2, 3>>, <<3, 3>>}) : L.order = "F" \/ (L.rev /\ L.dims = <<2, 3>>)}
@@ -80,6 +82,13 @@ MeshCases(u) ==
      d \in MeshDst, sm \in BOOLEAN, tm \in BOOLEAN} \cup
   {[kind |-> "linear", src |-> MeshLayout, dst |-> d, su |-> "umixed", tu |-> "struct", sm |-> sm, tm |-> FALSE, fill |-> f] :
      d \in MeshDst, sm \in BOOLEAN, f \in BOOLEAN}
+(* ... and a structured source covering it onto the mixed mesh as target *)
+MeshSrc == {L \in Layouts({"uniform"}, {<<7, 7>>}) : L.loc = "points" /\ L.order = "F" /\ ~L.rev /\ L.inc = <<TRUE, TRUE>>}
+MeshTargetCases(u) ==
+  {[kind |-> "nearest", src |-> s, dst |-> MeshLayout, su |-> su, tu |-> "umixed", sm |-> sm, tm |-> tm, fill |-> FALSE] :
+     s \in MeshSrc, su \in {"struct", "upoints"}, sm \in BOOLEAN, tm \in BOOLEAN} \cup
+  {[kind |-> "linear", src |-> s, dst |-> MeshLayout, su |-> "upoints", tu |-> "umixed", sm |-> sm, tm |-> FALSE, fill |-> f] :
+     s \in MeshSrc, sm \in BOOLEAN, f \in BOOLEAN}
 (* identity between layouts of one grid *)
 IdentityCases(u) ==
   {[kind |-> "nearest", src |-> s, dst |-> d, su |-> "struct", tu |-> "struct", sm |-> FALSE, tm |-> FALSE, fill |-> FALSE] :
